@@ -30,6 +30,9 @@ THROWS = [
     ("algorithms.AES", ["ValueError"], None),
     ("modes.GCM", ["ValueError"], None),
     ("modes.CBC", ["ValueError"], None),
+    ("aead.AESGCM", ["ValueError"], None),                 # probed: key not 128/192/256 bit
+    ("aead.AESGCM.decrypt", [IT, "ValueError"], None),     # probed: nonce outside 8..128 octets -> ValueError, else InvalidTag
+    ("aead.AESGCM.encrypt", ["ValueError", "OverflowError"], None),
     ("ciphers.Cipher", ["ValueError"], None),
     ("Cipher.decryptor", ["ValueError"], None),
     ("Cipher.encryptor", ["ValueError"], None),
